@@ -1148,16 +1148,26 @@ def hash_args_eval(
             var_param_name = param.name
             break
 
+    # Only these parameters can be given by position.
+    positional_params = [
+        param.name
+        for param in sig.parameters.values()
+        if param.kind in (inspect.Parameter.POSITIONAL_ONLY, inspect.Parameter.POSITIONAL_OR_KEYWORD)
+    ]
+
     # Filter args to remove config_args.
     args2 = [
         arg_value
-        for arg_name, arg_value in zip(sig.parameters, args)
+        for arg_name, arg_value in zip(positional_params, args)
         if keep_arg(arg_name, arg_value)
     ]
 
-    # Additional arguments are assumed to be variadic arguments.
+    # Additional arguments are variadic arguments. They do not stand for the parameters that
+    # follow the variadic parameter (keyword-only ones), which may be config args.
     args2.extend(
-        arg_value for arg_value in args[len(sig.parameters) :] if var_param_name not in config_args
+        arg_value
+        for arg_value in args[len(positional_params) :]
+        if var_param_name not in config_args
     )
 
     # Filter kwargs.
